@@ -2681,6 +2681,9 @@ refill(struct evrrul_s *restrict strm)
 	 * exist twice may lead us there again */
 	const echs_instant_t last = strm->ncch
 		? strm->cch[strm->ncch - 1U] : echs_nul_instant();
+	/* where we start out, that's DTSTART in the first refill, local
+	 * times that don't exist may lead us to instants before it */
+	const echs_instant_t from = strm->e.from;
 
 	assert(rr->freq > FREQ_NONE);
 again:
@@ -2775,7 +2778,12 @@ again:
 			if (LIKELY(!echs_instant_all_day_p(x) &&
 				   !echs_nul_instant_p(x))) {
 				x = echs_instant_utc(x, strm->zon);
-				if (untilp &&
+				if (echs_nul_instant_p(last) &&
+				    echs_instant_lt_p(x, from)) {
+					/* a later local time on an instant
+					 * before DTSTART */
+					continue;
+				} else if (untilp &&
 				    echs_instant_lt_p(strm->until, x)) {
 					/* the local time was within UNTIL's
 					 * local time, the instant isn't: the
